@@ -3251,6 +3251,11 @@ class RawTables(Monitor):
                 for e in entry:
                     base = base_raw(rng, rng.choice(descs), [kind])
                     st = {"op": e["op"], "args": json.loads(json.dumps(e["args"])), "expect": "any"}
+                    if kind == "edge_id" and e["op"] in ("tc.ibd_within", "tc.ibd_between", "tc.ibd_all",
+                                                         "tc.delete_older", "tc.link_ancestors"):
+                        # since e0eff6d (C09-N5) these check the tables on entry: an edge whose parent or
+                        # child is out of range must be rejected, not used as an index
+                        st["expect"] = "raise"
                     yield {"base": base, "steps": [st, {"op": "probe.tc", "args": {}}]}
         for k in range(n):
             base = base_raw(rng, rng.choice(descs))
